@@ -47,9 +47,9 @@ type MuxMon struct {
 	// C05: last continuity counter seen in the OUTPUT per PID emitted by the Muxer itself
 	LastCC map[uint16]int
 	// driver-side bookkeeping for the finding classifiers
-	FailedGenSincePAT   int // table generations that failed after the PAT was generated, since the last PAT in the output
-	OversizeSincePMT    int // generations that failed on an oversized PMT since the last PMT in the output
-	OversizeDirtySince  int // ... of those, while the PMT content was marked changed
+	FailedGenSincePAT  int // table generations that failed after the PAT was generated, since the last PAT in the output
+	OversizeSincePMT   int // generations that failed on an oversized PMT since the last PMT in the output
+	OversizeDirtySince int // ... of those, while the PMT content was marked changed
 	// C17 model
 	Streams    []mStream
 	PCR        uint16
